@@ -43,6 +43,24 @@ Proof. unfold disagree. witness w_excl_jdk_table w_excl_repo w_excl_root. Qed.
 Lemma w_jdk_disagree : disagree w_jdk_jdk_table w_jdk_repo w_jdk_root.
 Proof. unfold disagree. witness w_jdk_jdk_table w_jdk_repo w_jdk_root. Qed.
 
+(* F-C15-9: the model (as the Go code) fails where the specification gives lists *)
+Lemma w_jdkneg_rejected : exists e (r : lists),
+  effective w_jdkneg_jdk_table w_jdk w_os w_jdkneg_repo w_jdkneg_root = Err e /\
+  S.effective w_jdkneg_jdk_table w_jdk w_os w_jdkneg_repo w_jdkneg_root = S.SOk r /\ length (fst r) = 2%nat.
+Proof.
+  let s := eval vm_compute in (S.effective w_jdkneg_jdk_table w_jdk w_os w_jdkneg_repo w_jdkneg_root) in
+  match s with S.SOk ?r => exists E_profile, r; split; [vm_compute; reflexivity | split; vm_compute; reflexivity] end.
+Qed.
+
+Lemma jdk_condition_examples :
+  S.jdk_expect [49;49] [49;49;46;48;46;56] = Some true /\
+  S.jdk_expect [49;49;46;48;46;55] [49;49;46;48;46;56] = Some false /\
+  S.jdk_expect [33;49;46;56] [49;49;46;48;46;56] = Some true /\
+  S.jdk_expect [91;49;49;44;49;55;41] [49;55;46;48;46;50] = Some false /\
+  S.jdk_expect [40;44;49;49;46;48;46;56;93] [49;49;46;48;46;56] = Some true /\
+  S.jdk_expect [40;44;49;46;56;93] [49;46;56;46;48;95;50;57;50] = None.
+Proof. vm_compute. repeat split; reflexivity. Qed.
+
 (* the unrestricted refinement is false *)
 Lemma full_refuted :
   ~ (forall (J : bytes -> bytes -> res bool) jdk os repo root r,
